@@ -112,35 +112,59 @@ theorem tokGuard_safe2 : SinkSafe2 (guardArgs (tokGuard s) (cleanOps ops)) inp w
   startTagHint := fun n ns k e he => by have := cleanRes_err _ he; subst this; trivial
   endTagHint := fun n k e he => by have := cleanRes_err _ he; subst this; trivial
 
-/-- the real sink does not itself report `.panic s` on a valid lexeme -/
-structure TokFresh (s : String) (ops : SinkOps κ) (inp : Bytes) : Prop where
-  handleTag : ∀ lx k, TagLexValid inp lx → (ops.handleTag inp lx k).2 ≠ .error (.panic s)
-  handleNonTag : ∀ lx k, NTLexValid inp lx → (ops.handleNonTag inp lx k).2 ≠ .error (.panic s)
-  startTagHint : ∀ n ns k, (ops.startTagHint n ns k).2 ≠ .error (.panic s)
-  endTagHint : ∀ n k, (ops.endTagHint n k).2 ≠ .error (.panic s)
+/-- on sink states with `Dk` (kept by successful operations): the real sink does not itself report `.panic s`
+on a valid lexeme -/
+structure TokFresh (s : String) (ops : SinkOps κ) (inp : Bytes) (Dk : κ → Prop) : Prop where
+  handleTag : ∀ lx k, Dk k → TagLexValid inp lx →
+    (ops.handleTag inp lx k).2 ≠ .error (.panic s) ∧ (∀ a, (ops.handleTag inp lx k).2 = .ok a → Dk (ops.handleTag inp lx k).1)
+  handleNonTag : ∀ lx k, Dk k → NTLexValid inp lx →
+    (ops.handleNonTag inp lx k).2 ≠ .error (.panic s) ∧
+    (∀ a, (ops.handleNonTag inp lx k).2 = .ok a → Dk (ops.handleNonTag inp lx k).1)
+  startTagHint : ∀ n ns k, Dk k →
+    (ops.startTagHint n ns k).2 ≠ .error (.panic s) ∧ (∀ a, (ops.startTagHint n ns k).2 = .ok a → Dk (ops.startTagHint n ns k).1)
+  endTagHint : ∀ n k, Dk k →
+    (ops.endTagHint n k).2 ≠ .error (.panic s) ∧ (∀ a, (ops.endTagHint n k).2 = .ok a → Dk (ops.endTagHint n k).1)
 
-theorem TokFresh.argFresh (h : TokFresh s ops inp) : ArgFresh (tokGuard s) ops inp where
-  handleTag := fun lx k e hg hF => by rw [tokGuard_fires hF]; exact h.handleTag lx k (tokGuard_tag_none hg)
-  handleNonTag := fun lx k e hg hF => by rw [tokGuard_fires hF]; exact h.handleNonTag lx k (tokGuard_nonTag_none hg)
-  startTagHint := fun n ns k e hF => by rw [tokGuard_fires hF]; exact h.startTagHint n ns k
-  endTagHint := fun n k e hF => by rw [tokGuard_fires hF]; exact h.endTagHint n k
+variable {Dk : κ → Prop}
+
+theorem TokFresh.argFresh (h : TokFresh s ops inp Dk) : ArgFresh (tokGuard s) ops inp Dk where
+  handleTag := fun lx k hD hg =>
+    ⟨fun e hF => by rw [tokGuard_fires hF]; exact (h.handleTag lx k hD (tokGuard_tag_none hg)).1,
+     (h.handleTag lx k hD (tokGuard_tag_none hg)).2⟩
+  handleNonTag := fun lx k hD hg =>
+    ⟨fun e hF => by rw [tokGuard_fires hF]; exact (h.handleNonTag lx k hD (tokGuard_nonTag_none hg)).1,
+     (h.handleNonTag lx k hD (tokGuard_nonTag_none hg)).2⟩
+  startTagHint := fun n ns k hD =>
+    ⟨fun e hF => by rw [tokGuard_fires hF]; exact (h.startTagHint n ns k hD).1, (h.startTagHint n ns k hD).2⟩
+  endTagHint := fun n k hD =>
+    ⟨fun e hF => by rw [tokGuard_fires hF]; exact (h.endTagHint n k hD).1, (h.endTagHint n k hD).2⟩
+
+/-- the guard refuses the lexeme with raw range `1..0` -/
+theorem tokGuard_fires_s (s : String) (inp : Bytes) : (tokGuard s).Fires inp (.panic s) := by
+  refine Or.inl ⟨⟨0, ⟨1, 0⟩, .endTag ⟨0, 0⟩ 0⟩, ?_⟩
+  simp only [tokGuard]
+  rw [if_neg]
+  intro hv
+  have := hv.1.1
+  simp at this
 
 variable {tbl : Table} {cfg : TagCfg}
 
-/-- **`parse_args_valid_tok` (token-part ranges only; `Lemmas/ArgsValidRaw.lean` adds the attribute raw ranges).** Every table with `WfTable`, certificate and `EmitsChecked`;
-EVERY sink `ops` (no hypothesis on its answers beyond `TokFresh`: it does not itself report the guard's error
-on a valid lexeme); every input, `last` flag and parser state with the C15 invariants (`PInv` at the trivial
-watermark, `PTok`): `Parser.parse` over the sink guarded by `tokGuard s` IS `Parser.parse` over `ops` — every
-lexeme handed to `handle_tag` / `handle_non_tag_content` during the call has its raw range, tag-name range,
-attribute name / value ranges, comment-text range inside the input; the call does not return `.panic s`; and
-if it succeeds the invariants hold again for what is retained. -/
+/-- **`parse_args_valid_tok` (token-part ranges only; `Lemmas/ArgsValidRaw.lean` adds the attribute raw ranges).**
+Every table with `WfTable`, certificate and `EmitsChecked`; EVERY sink `ops` (no hypothesis on its answers beyond
+`TokFresh`: on states with `Dk` it does not itself report the guard's error on a valid lexeme); every input, `last`
+flag and parser state with the C15 invariants (`PInv` at the trivial watermark, `PTok`) and `Dk` of its sink:
+`Parser.parse` over the sink guarded by `tokGuard s` IS `Parser.parse` over `ops` — every lexeme handed to
+`handle_tag` / `handle_non_tag_content` during the call has its raw range, tag-name range, attribute name / value
+ranges, comment-text range inside the input; the call does not return `.panic s`; and if it succeeds the
+invariants hold again for what is retained. -/
 theorem parse_args_valid_tok {cert : Cert} (hw : Wf tbl) (hchk : checkCert tbl cert = true) (ht : EmitsChecked tbl = true)
-    (hs : T2 s) (hf : TokFresh s ops inp) (last : Bool) (p : Parser κ)
-    (hp : PInv tbl inp.length (fun _ => 0) p) (htp : PTok tbl cert p) :
+    (hs : T2 s) (hf : TokFresh s ops inp Dk) (last : Bool) (p : Parser κ)
+    (hp : PInv tbl inp.length (fun _ => 0) p) (htp : PTok tbl cert p) (hDk : Dk p.x.sink) :
     Parser.parse ⟨tbl, cfg, guardArgs (tokGuard s) ops⟩ inp last p = Parser.parse ⟨tbl, cfg, ops⟩ inp last p ∧
     (Parser.parse ⟨tbl, cfg, ops⟩ inp last p).2 ≠ .error (.panic s) ∧
     (∀ k, (Parser.parse ⟨tbl, cfg, ops⟩ inp last p).2 = .ok k →
-      k ≤ inp.length ∧
+      k ≤ inp.length ∧ Dk (Parser.parse ⟨tbl, cfg, ops⟩ inp last p).1.x.sink ∧
       (last = false → PInv tbl (inp.length - k) (fun _ => 0) (Parser.parse ⟨tbl, cfg, ops⟩ inp last p).1 ∧
         PTok tbl cert (Parser.parse ⟨tbl, cfg, ops⟩ inp last p).1)) := by
   have hsafe := tokGuard_safe (ops := ops) (inp := inp) hs
@@ -148,29 +172,20 @@ theorem parse_args_valid_tok {cert : Cert} (hw : Wf tbl) (hchk : checkCert tbl c
   have hpost := parse_post (env := ⟨tbl, cfg, guardArgs (tokGuard s) (cleanOps ops)⟩) (inp := inp) hsafe hw last p hp
   obtain ⟨q1, q2⟩ := parse_post2 (env := ⟨tbl, cfg, guardArgs (tokGuard s) (cleanOps ops)⟩) (inp := inp) hchk hsafe hsafe2 hw last p hp htp
   obtain ⟨g1, g2, g3⟩ := guardArgs_parse_eq (tbl := tbl) (cfg := cfg) ht hf.argFresh
-    (fun e hF => ⟨s, tokGuard_fires hF⟩) last p
+    (fun e hF => ⟨s, tokGuard_fires hF⟩) last p hDk
     (fun e hF he => by
       rw [tokGuard_fires hF] at he
       exact T2_not_U2 hs (q1 _ he))
-  refine ⟨g1, ?_, fun k hk => ?_⟩
-  · cases hex : (Parser.parse ⟨tbl, cfg, ops⟩ inp last p).2 with
-    | ok k => intro h; cases h
-    | error e =>
-      intro h
-      simp only [Except.error.injEq] at h
-      subst h
-      exact g2 _ (Or.inl ⟨⟨0, ⟨1, 0⟩, .endTag ⟨0, 0⟩ 0⟩, by
-        simp only [tokGuard]
-        rw [if_neg]
-        intro hv
-        have := hv.1.1
-        simp at this⟩) hex
-  · have hk' := hk
-    rw [g3 k hk] at hk' ⊢
-    unfold ParsePost at hpost
-    rw [hk'] at hpost
-    obtain ⟨_, p2, p3⟩ := hpost
-    exact ⟨p2, fun hl => ⟨p3 hl, q2 k hk' hl⟩⟩
+  refine ⟨g1, g2 _ (tokGuard_fires_s s inp), fun k hk => ?_⟩
+  obtain ⟨g3a, g3b⟩ := g3 k hk
+  have hk' := hk
+  rw [g3a] at hk'
+  unfold ParsePost at hpost
+  rw [hk'] at hpost
+  obtain ⟨_, p2, p3⟩ := hpost
+  refine ⟨p2, g3b, fun hl => ?_⟩
+  rw [g3a]
+  exact ⟨p3 hl, q2 k hk' hl⟩
 
 end
 end LolHtml.Model
